@@ -3,6 +3,7 @@ package main
 // VC generation: SSA (NaiveForm) of one function -> ordered facts + obligations.
 
 import (
+	"strconv"
 	"sync"
 	"os"
 	"fmt"
@@ -1740,6 +1741,7 @@ func (g *Gen) checkAtCallAnchors() {
 			continue
 		}
 		found := false
+		sites, want := 0, 0
 		for _, b := range g.fn.Blocks {
 			for _, in := range b.Instrs {
 				ci, ok := in.(ssa.CallInstruction)
@@ -1749,12 +1751,19 @@ func (g *Gen) checkAtCallAnchors() {
 				key, _ := g.calleeKey(ci.Common())
 				name := ac.Callee
 				if i := strings.LastIndex(name, "#"); i > 0 {
+					if k, err := strconv.Atoi(name[i+1:]); err == nil {
+						want = k + 1
+					}
 					name = name[:i]
 				}
 				if key != "" && (strings.HasSuffix(key, "."+name) || strings.HasSuffix(key, "/"+name) || key == name) {
 					found = true
+					sites++
 				}
 			}
+		}
+		if sites < want {
+			found = false // "f#k": there is no k-th call of f
 		}
 		if !found {
 			lab := ac.Clause.Label
